@@ -31,8 +31,12 @@ Over(K) ==
   \cup {<<"setfn", a>> : a \in K} \cup {<<"varcall", <<a>>>> : a \in K}
   \cup {<<"inlist", a, b, c>> : a \in K, b \in K, c \in {C}}
   \cup {<<"uun", a>> : a \in K} \cup {<<"upost", a>> : a \in K} \cup {<<"ucalc", a, b>> : a \in K, b \in K} \cup {<<"uset", a>> : a \in K}
+\* conditional ladders: a rung whose condition is not a boolean (G returns 7) is the first error, wherever the rung sits
+NB == <<"gcall", <<C>>>>
+Ladders == { <<"tern", C, C, <<"tern", NB, C, C>>>>, <<"tern", C, <<"tern", NB, C, C>>, C>>, <<"tern", C, C, <<"tern", C, C, <<"tern", NB, C, C>>>>>>,
+             <<"tern", C, C, <<"tern", C, <<"tern", NB, C, C>>, C>>>>, <<"tern", <<"tern", C, NB, C>>, C, C>>, <<"list", <<C, <<"tern", C, C, <<"tern", NB, C, C>>>>>>>> }
 Shapes == IF Depth = 1 THEN {C, <<"var">>} \cup Over(Kids1) \cup {<<"map", <<<<C, C>>, <<C, C>>>>>>, <<"stmt", <<>>>>, <<"stmt", <<C, C, C>>>>}
-          ELSE Over(Kids2) \cup {<<"stmt", <<a, b, c>>>> : a \in {C, <<"set", C>>}, b \in Kids2, c \in {C, <<"var">>, <<"tern", C, C, C>>}}
+          ELSE Ladders \cup Over(Kids2) \cup {<<"stmt", <<a, b, c>>>> : a \in {C, <<"set", C>>}, b \in Kids2, c \in {C, <<"var">>, <<"tern", C, C, C>>}}
 RECURSIVE Size(_), SizeSeq(_)
 SizeSeq(s) == IF s = <<>> THEN 0 ELSE Size(Head(s)) + SizeSeq(Tail(s))
 Size(t) ==
@@ -130,7 +134,7 @@ DispatchCases == <<
   [prog |-> <<"list", <<<<"call", "d11", <<>>>>, <<"call", "max", <<<<"lit", VInt(1)>>>>>>>>>>, ctx |-> ("max" :> <<"fn", "h6">>), gfun |-> ("d11" :> "h15")] >>
 DispatchEnv(c, fault) == [handlers |-> [h \in {HID[i] : i \in 1..16} |-> [ret |-> VStr(<<104, LeafIdx(h) + 64>>), act |-> "lockctx"]],
                           gfun |-> c.gfun, gprefix |-> <<>>, gpostfix |-> <<>>, ginfix |-> <<>>, fault |-> fault]
-DispatchInit == \E k \in 1..Len(DispatchCases), fault \in {NoFault, <<1, "err">>} : Start(DispatchEnv(DispatchCases[k], fault), DispatchCases[k].prog, DispatchCases[k].ctx)
+DispatchInit == \E k \in 1..Len(DispatchCases), fault \in {NoFault, <<1, "err">>, <<1, "panic">>, <<2, "err">>} : Start(DispatchEnv(DispatchCases[k], fault), DispatchCases[k].prog, DispatchCases[k].ctx)
 ShapeInit == \E s \in Shapes, mode \in LeafModes :
           LET L == Size(s) IN
           \E script \in Scripts(L), fault \in Faults(L) : Start(EnvOf(L, script, fault), Build(s, 0, mode), CtxOf(L))
